@@ -2,10 +2,10 @@
    Only ExtrOcamlBasic: bool/option/unit/list/prod/sumbool map to OCaml's; nat, N, positive, Z stay inductive. *)
 Require Extraction.
 Require Import ExtrOcamlBasic.
-From Mustache Require Import CInt Handle Res Skeleton SkelSpec SkelRun Manager Palette MgrSpec Worlds Events Systems Layout Dispatcher.
+From Mustache Require Import CInt Handle Res Skeleton SkelSpec SkelRun Manager Palette MgrSpec Worlds Events Systems Layout Dispatcher TempStore.
 From Mustache.gen Require Import EntityGen IdDeffGen.
 
 Separate Extraction
   EntityGen.Entity IdDeffGen.ComponentStorageIndex IdDeffGen.ComponentOffset
-  Res.err Dispatcher.first_reject Dispatcher.d_init Dispatcher.parallel_for_ranges Layout.offsets Layout.chunk_size Layout.chunk_align Systems.sm_step Systems.sm_init Systems.check_order Events.e_step Events.e_init Events.sp_step Worlds.w_step Worlds.w_init MgrSpec.x_step MgrSpec.x_init Manager.step Manager.init Manager.is_valid Palette.pal_info SkelSpec.spec_step SkelSpec.sp_init SkelRun.srun Skeleton.step Skeleton.init Skeleton.is_valid Skeleton.walk
+  Res.err TempStore.ts_init TempStore.ts_step TempStore.ts_run TempStore.ts_exec TempStore.ts_bases_ok TempStore.ts_chunk_view Dispatcher.first_reject Dispatcher.d_init Dispatcher.parallel_for_ranges Layout.offsets Layout.chunk_size Layout.chunk_align Systems.sm_step Systems.sm_init Systems.check_order Events.e_step Events.e_init Events.sp_step Worlds.w_step Worlds.w_init MgrSpec.x_step MgrSpec.x_init Manager.step Manager.init Manager.is_valid Palette.pal_info SkelSpec.spec_step SkelSpec.sp_init SkelRun.srun Skeleton.step Skeleton.init Skeleton.is_valid Skeleton.walk
   Handle.spec_pack Handle.spec_id Handle.spec_world Handle.spec_version.
